@@ -266,6 +266,7 @@ class ScriptedGen:
 
     def __init__(self, ratio):
         self.calls = []
+        self.handed = []
         self.ratio = ratio
 
     def multivariate_normal(self, mean, cov, size=None, **kw):
@@ -275,6 +276,18 @@ class ScriptedGen:
         n = int(size) if size is not None else 1
         L = len(mean)
         return np.array([[(100.0 * (j + 1) + k + 1) * self.ratio for k in range(L)] for j in range(n)])
+
+
+def _spy_helper(joker, data, sg):
+    from thejoker.src.fast_likelihood import CJokerHelper
+    base = joker._make_joker_helper(data)
+    cls = type(base)
+
+    class SpyHelper(cls):
+        def batch_get_posterior_samples(self, chunk, n_linear_samples_per, rng):
+            sg.handed.append(type(rng).__name__)
+            return cls.batch_get_posterior_samples(self, chunk, n_linear_samples_per, sg)
+    return SpyHelper(*base.__reduce__()[1])
 
 
 def lnN(y, b, Bm):
@@ -313,7 +326,11 @@ def realize(case):
     def epochs2(mat):
         return [[mat[perm[n]][perm[m]] for m in range(N)] for n in range(N)]
     joker = TheJoker(prior, rng=np.random.default_rng(case.get("seed", 0)))
-    helper = joker._make_joker_helper(data)
+    # the likelihood helper, as TheJoker makes it, with one interposition at the kernel boundary: whichever generator object the
+    # library hands to batch_get_posterior_samples (the caller's, or a child spawned from it - the property does not say) is
+    # replaced by the scripted one, which records the (mean, cov, size) it is asked for and returns sentinel draws
+    sg = ScriptedGen(ratio)
+    helper = _spy_helper(joker, data, sg)
     tchunk, _ = target.pack(units=helper.internal_units, names=helper.packed_order)
     dchunk, _ = decoy.pack(units=helper.internal_units, names=helper.packed_order)
     chunk = np.ascontiguousarray(np.vstack([dchunk, tchunk]), dtype=float)
@@ -347,11 +364,12 @@ def realize(case):
         ev = {"ev": "Draw", "fam": fam.get("draw", "C03"), "tag": "", "covfinite": True, "Ainv": [], "rhs": [], "covok": False, "ncalls": 0, "size": 0, "nlinear": nl,
               "outx": [], "sent": [], "thetasame": False}
         try:
-            sg = ScriptedGen(ratio)
             # the decoy goes through the same helper first (stale state), then the target row alone
             with np.errstate(all="ignore"):
                 helper.batch_marginal_ln_likelihood(np.ascontiguousarray(dchunk, dtype=float))
-                samples = make_full_samples_inmem(helper, np.ascontiguousarray(tchunk, dtype=float), sg, n_linear_samples=nl)
+                sg.calls[:] = []
+                samples = make_full_samples_inmem(helper, np.ascontiguousarray(tchunk, dtype=float),
+                                                  np.random.default_rng(case.get("seed", 0) + 17), n_linear_samples=nl)
             ev["ncalls"] = len(sg.calls)
             c0 = sg.calls[0]
             ev["size"] = int(c0["size"]) if c0["size"] is not None else 1
